@@ -9,11 +9,15 @@ ID = "C18"
 PROP_FILE = "Props/C18.v"
 RULE = ("definitions: C01-style enums WITHOUT a default variant, half with parse_err_ty + parse_err_fn (a function or a module "
         "path; attributes in either order, in one or two #[strum] attributes), half without; case-sensitive and insensitive "
-        "variants. The harness's parse_err_fn logs every call: for every rejected input the log must be exactly [input] (bytes "
+        "variants; a third of the definitions also carry use_phf (strum built with its phf feature). The harness's parse_err_fn logs every call: for every rejected input the log must be exactly [input] (bytes "
         "unchanged: padded, mixed-case, multi-byte, 300-byte inputs) and the error must carry that input; for every accepted "
         "input the log must stay empty; FromStr::Err and TryFrom::Error are observed through a trait implemented only for "
         "strum::ParseError and the custom type. non-trivial = distinct (definition, input)")
 ASSUMPTIONS = ["the user's function is observed through its argument and a call log (its body is the harness's)"]
+
+
+def crate_configs(tier):
+    return [{"name": "c18", "features": ("derive", "phf")}]
 
 
 def build_corpus(tier, rng):
@@ -21,13 +25,27 @@ def build_corpus(tier, rng):
     thorough = tier == "thorough"
     cands = []
     for i in range(900 if thorough else 100):
+        # a third of the definitions also use the phf-backed parser (field-less enums only): the error function must not be
+        # touched by the map lookup path either
+        phf = (i % 3 == 0)
         cands.append(("custom" if i % 2 == 0 else "standard",
-                      G.string_enum(rng, allow_default=False, custom_err=(i % 2 == 0))))
+                      G.string_enum(rng, allow_default=False, custom_err=(i % 2 == 0), phf=phf, allow_fields=not phf,
+                                    generics=not phf, allow_aci=(i % 6 != 0))))
     for it in c01.systematic(rng):
         it.variants = [v for v in it.variants if not v.has("default")]
         it.metas = [m for m in it.metas if m.kind not in ("pety", "pefn")] + [EM("pefn", "perr::b"), EM("pety", "PErr")]
         it.groups = [len(it.metas) - 1]
         cands.append(("systematic", it))
+    import copy
+    for fam, it in list(cands):
+        if fam == "systematic" and len(cands) % 2 == 0 or fam == "systematic":
+            tw = copy.deepcopy(it)
+            for v in tw.variants:
+                v.kind, v.fields = "unit", []
+                v.metas = [m for m in v.metas if m.kind != "aci"] if len(tw.variants) % 2 else v.metas
+            tw.metas = [m for m in tw.metas if m.kind != "aci"] + [EM("phf")]
+            tw.groups = None
+            cands.append(("systematic-phf", tw))
     infos = G.classify(ID, [it for _, it in cands])
     rejected = 0
     for (fam, it), info in zip(cands, infos):
